@@ -3,6 +3,10 @@ Proof: coq/Props/C20.v — readers-writer locking and thread-private state (coq/
 isolation and non-interference for all schedules and thread counts when no write acquisition exists in the evaluation path;
 the hypotheses about the code (no .write() in the evaluation phase, no shared mutable statics, private decimal context per
 call, no unsafe Send/Sync) are regenerated from the source into coq/Gen/SyncSites.v on every run and decided by vm_compute.
+coq/C20/Inv.v + InvProofs.v: the same for a machine with write acquisitions and shared mutable cells, for EVERY inventory that meets
+`sites_ok`, with a necessity witness per hypothesis; coq/C20/Code.v + CodeProofs.v: the lock program of a call built from the regenerated
+code regions (acquisitions and releases, nesting as extracted), every depth.  lock_observation: the lock operations of one nested evaluation
+observed in the running code (gdb, no hook) must be the program the inventory describes.
 Correspondence = stress: one Arc<ModelEvaluator> shared by 2..16 threads (`dv threads`), randomised barriers / yields / call
 orders, every result compared with the sequential result, watchdog for deadlock, final pass for a poisoned lock."""
 import json
@@ -180,6 +184,7 @@ def storm_phase(ctx, exe, xml, bad_sites, runs_out):
 
 def regenerate_sites(ctx):
     import syncsites2coq
+    globals()['syncsites2coq'] = syncsites2coq
     sites, locks = syncsites2coq.main()
     bad = []
     for rel, line, kind, evalp, fn in sites:
@@ -193,7 +198,135 @@ def regenerate_sites(ctx):
     ctx.cov['sync_sites'] = len(sites)
     ctx.cov['lock_receivers'] = len(locks)
     ctx.cov['sites_violating_hypotheses'] = bad
+    INVENTORY['sites'], INVENTORY['locks'] = sites, locks
+    INVENTORY['regions'] = syncsites2coq.regions(sites, locks)
+    INVENTORY['lock_types'] = syncsites2coq.lock_types(locks)
+    INVENTORY['call_path'] = syncsites2coq.call_path(sites, locks)
     return bad
+
+
+INVENTORY = {}
+
+OBS_XML = ('<?xml version="1.0" encoding="UTF-8"?><definitions namespace="nso" name="obs" id="dobs" %s>'
+           '<inputData name="a" id="i_a"><variable name="a" typeRef="number"/></inputData>'
+           '<decision name="inner" id="d_inner"><variable name="inner"/><informationRequirement><requiredInput href="#i_a"/></informationRequirement>'
+           '<literalExpression><text>a + 1</text></literalExpression></decision>'
+           '<decision name="outer" id="d_outer"><variable name="outer"/><informationRequirement><requiredDecision href="#d_inner"/></informationRequirement>'
+           '<literalExpression><text>inner * 2</text></literalExpression></decision></definitions>') % XMLNS
+
+
+def expected_lock_ops():
+    """what the regenerated inventory says one evaluation of a decision that requires a decision does: deep_ops 2 of coq/C20/Code.v without the steps"""
+    rg = INVENTORY['regions']
+    nest = []
+    for _ in range(2):
+        nest = list(rg['clo'][0]) + nest + list(rg['clo'][1])
+    ops = list(rg['inv'][0]) + list(rg['dec'][0]) + nest + list(rg['dec'][1]) + list(rg['inv'][1])
+    return [(o[0], bool(o[1]), o[2]) for o in ops if o[0] != 'S']
+
+
+def observe_lock_ops(ctx, exe):
+    """The lock operations the RUNNING code performs during one evaluation of a decision that requires a decision, in order: the harness binary
+    is run under gdb with a breakpoint on every instance of std's RwLock<T>::read / write / try_read / try_write (an acquisition; the calling
+    function names the site) and on every drop_in_place<RwLockReadGuard<T>> / <RwLockWriteGuard<T>> (the release; T names the receiver's type),
+    counted from the entry of ModelEvaluator::evaluate_invocable.  No hook in the code under test: symbols of the unoptimised build only.
+    Returns a list of ('A'|'R', is_write, lock id or text) or None when the observation is not possible here."""
+    import re
+    import shutil
+    import tempfile
+    if not shutil.which('gdb') or not shutil.which('nm'):
+        return None, 'gdb / nm not installed'
+    syms = subprocess.run(['nm', exe], stdout=subprocess.PIPE, text=True).stdout.split('\n')
+    names = [l.split()[-1] for l in syms if l.strip()]
+    acq = [n for n in names if re.search(r'rwlock15RwLock\$LT\$T\$GT\$(4read|5write|8try_read|9try_write)17h', n)]
+    drops = [n for n in names if re.search(r'drop_in_place\$LT\$std\.\.sync\.\.(poison\.\.)?rwlock\.\.RwLock(Read|Write)Guard\$LT\$', n)]
+    mark = [n for n in names if re.search(r'ModelEvaluator18evaluate_invocable17h', n)]
+    if not acq or not drops or not mark:
+        return None, 'the harness binary has no symbols for RwLock::read / guard drops / evaluate_invocable (%d, %d, %d)' % (len(acq), len(drops), len(mark))
+    tmp = tempfile.mkdtemp(prefix='c20obs-', dir=core.BUILD if hasattr(core, 'BUILD') else None)
+    try:
+        open(os.path.join(tmp, 'req.json'), 'w').write(json.dumps({'xml': OBS_XML, 'calls': [['outer', '{a: 1}']]}) + '\n')
+        g = ['set pagination off', 'set confirm off', 'set print thread-events off']
+        for n in mark:
+            g += ["break '%s'" % n, 'commands', 'silent', 'printf "@@MARK\\n"', 'continue', 'end']
+        for n in acq:
+            g += ["break '%s'" % n, 'commands', 'silent', 'printf "@@ACQ\\n"', 'bt 2', 'continue', 'end']
+        for n in drops:
+            g += ["break '%s'" % n, 'commands', 'silent', 'printf "@@DROP\\n"', 'bt 1', 'continue', 'end']
+        g += ['run model < %s > %s' % (os.path.join(tmp, 'req.json'), os.path.join(tmp, 'out.json')), 'quit']
+        open(os.path.join(tmp, 'obs.gdb'), 'w').write('\n'.join(g) + '\n')
+        try:
+            p = subprocess.run(['gdb', '-batch', '-nx', '-x', os.path.join(tmp, 'obs.gdb'), exe], stdout=subprocess.PIPE, stderr=subprocess.STDOUT, text=True, timeout=25)
+        except subprocess.TimeoutExpired:
+            return None, 'the observed evaluation did not return within 25 s'
+        out = p.stdout
+        try:
+            answer = json.loads(open(os.path.join(tmp, 'out.json')).read().split('\n')[0])
+        except Exception:
+            answer = None
+    finally:
+        shutil.rmtree(tmp, ignore_errors=True)
+    if not answer or answer.get('results') != [{'v': {'n': '4', 'p': '4'}}]:
+        return None, 'the observed evaluation did not answer 4: %s' % str(answer)[:200]
+    if '@@MARK' not in out:
+        return None, 'the entry of evaluate_invocable was not seen by gdb'
+    body = out.split('@@MARK', 1)[1]
+    sites, locks, ltypes = INVENTORY['sites'], INVENTORY['locks'], INVENTORY['lock_types']
+    by_fn = {}
+    for rel, line, kind, evalp, fn in sites:
+        if kind.startswith('SLock'):
+            by_fn.setdefault((fn, kind.split()[1] == 'true'), set()).add(int(kind.split()[2]))
+    by_type = {tuple(ltypes[r]): i for r, i in locks.items() if r in ltypes}
+    events = []
+    for chunk in re.split(r'@@(?=ACQ|DROP)', body)[1:]:
+        lines = chunk.split('\n')
+        if lines[0] == 'ACQ':
+            m0 = re.search(r'RwLock<T>::(read|write|try_read|try_write)::h([0-9a-f]+)', chunk)
+            m1 = re.search(r'^#1 .* in (.*?)::h[0-9a-f]+ \(\)', chunk, re.M)
+            if not m0:
+                continue
+            w = m0.group(1) in ('write', 'try_write')
+            fn = m1.group(1).split('::')[-1] if m1 else '?'
+            ids = by_fn.get((fn, w), set())
+            events.append(('A', w, sorted(ids)[0] if len(ids) == 1 else 'called from %s' % (m1.group(1) if m1 else '?')))
+        else:
+            m0 = re.search(r'drop_in_place<std::sync::(?:poison::)?rwlock::RwLock(Read|Write)Guard<(.*)>>::h[0-9a-f]+', chunk)
+            if not m0:
+                continue
+            toks = tuple(syncsites2coq.type_tokens(m0.group(2)))
+            events.append(('R', m0.group(1) == 'Write', by_type.get(toks, 'guard of %s' % m0.group(2))))
+    return events, None
+
+
+def lock_observation(ctx, exe):
+    """cross-check of the inventory against the running code (C20_inventory_nonempty speaks of the regenerated call path: here it is compared
+    with what an evaluation really does)"""
+    import syncsites2coq
+    globals()['syncsites2coq'] = syncsites2coq
+    want = expected_lock_ops()
+    got, why = observe_lock_ops(ctx, exe)
+    ctx.evaluations += 1
+    names = {i: r for r, i in INVENTORY['locks'].items()}
+
+    def show(ops):
+        return ' '.join('%s%s:%s' % ('acquire' if o[0] == 'A' else 'release', '(write)' if o[1] else '', names.get(o[2], o[2])) for o in ops)
+    if got is None:
+        ctx.notes.append('lock operations of the running code not observed: %s' % why)
+        ctx.cov['lock_operations_observed'] = {'observed': False, 'why': why}
+        return
+    ctx.corr_checked += 1
+    acquired = sorted(set(o[2] for o in got if o[0] == 'A' and isinstance(o[2], int)))
+    ctx.cov['lock_operations_observed'] = {'observed': True, 'operations': len(got), 'acquisitions': len([o for o in got if o[0] == 'A']),
+                                           'write_acquisitions': len([o for o in got if o[0] == 'A' and o[1]]),
+                                           'receivers_acquired': [names.get(i, i) for i in acquired], 'equal_to_inventory_program': got == want}
+    if got and len(acquired) >= 3:
+        ctx.nontrivial.add('lock-observation')
+    path_ids = sorted(set(l for w, l in INVENTORY['call_path']))
+    missing = [names.get(i, i) for i in path_ids if i not in acquired]
+    if got != want or missing:
+        ctx.corr_broken('the lock operations of one evaluation of a decision that requires a decision, observed in the running code, are not the program the regenerated '
+                        'inventory describes (deep_ops 2 of coq/C20/Code.v)%s' % ('; receivers of the call path never acquired: %s' % missing if missing else ''),
+                        {'model': 'decision outer requires decision inner requires input a; evaluate_invocable("outer", {a: 1})'}, show(got)[:1500], show(want)[:1500])
 
 
 def run_stress(ctx, exe, xml, calls, threads, per_thread, seed, timeout_s, trials=1):
@@ -313,6 +446,7 @@ def run(ctx):
         ctx.broken.append('site inventory: the evaluation path no longer meets the hypotheses of the locking/isolation theorems: ' + '; '.join(bad_sites[:6]))
     exe = ctx.build_harness()
     xml = stress_model()
+    lock_observation(ctx, exe)
     directed_search(ctx, exe, xml, found)
     alone_phase(ctx, exe, xml)
     total_calls = 0
@@ -376,9 +510,12 @@ def run(ctx):
              'repeated alone on the raced evaluator; plus a storm phase: 16 threads calling regex / date built-ins with 2500 distinct patterns, subjects and date texts from the input data; non-trivial = run with >= 20 (storm: >= 2000) distinct results',
         extra_cov={'exhaustive': False, 'stress_runs': runs, 'total_concurrent_calls': total_calls},
         assumptions=['the schedules of the real program are explored by repeated randomised runs, not enumerated (level: partial)',
-                     'std::sync::RwLock is modelled in its strictest form (a waiting writer blocks new readers)'],
+                     'std::sync::RwLock is modelled in its strictest form (a waiting writer blocks new readers)',
+                     'a step of a call can read or write shared mutable state only through the sites the inventory lists (cells of coq/C20/Inv.v); the lock program of a call consists of '
+                     'acquisitions the inventory lists (checked on one nested evaluation by observing the running code: lock_operations_observed)'],
         trusted=['translators/syncsites2coq.py (brace-matching scanner that classifies lock acquisitions, statics, unsafe impls and decimal-context uses of the anchored files and '
-                 'evaluation-path crates into build / evaluation phase)', 'rustc enforces that Scope (RefCell) is never shared: Evaluator closures are Send + Sync',
+                 'evaluation-path crates into build / evaluation phase, and places the release of every guard of the three evaluation regions by the binding form it stands in)',
+                 'gdb and the symbol names of the unoptimised harness build (observation of RwLock::read / write and guard drops)', 'rustc enforces that Scope (RefCell) is never shared: Evaluator closures are Send + Sync',
                  'decNumber C kernel, chrono, regex internals, the OS scheduler and the memory model: sampled by the stress runs only'])
 
 
@@ -409,7 +546,31 @@ def replay(ctx, path):
 
 
 MANIFEST = dict(
-    technique='Coq proof about a readers-writer locking / thread-private state model (all schedules, all thread counts) whose hypotheses are regenerated from the source on every run, plus multi-threaded stress correspondence',
-    text='Theorems (coq/Props/C20.v, closed under the global context): when no write acquisition exists in the evaluation path, nested read acquisitions never block, no reachable state is stuck, every fair schedule finishes, a thread\'s result under any schedule equals its solo result, results do not depend on other threads\' programs or private states, and no lock is left held; a write acquisition inside a read section deadlocks under some schedule (hypothesis necessary). The hypotheses (no .write() in the evaluation phase, no shared mutable static / thread_local / unsafe Send-Sync in the evaluation-path crates, private decimal context per call) are extracted from the current source by translators/syncsites2coq.py into coq/Gen/SyncSites.v and decided by vm_compute (C20_sites_ok), and the theorems are instantiated for the program the inventory describes. The real evaluator is exercised by 2..16 threads with randomised barriers, yields and call orders; every result is compared with the sequential one, with a deadlock watchdog and a poisoned-lock pass.',
-    note='Partial: the proof is about the locking/isolation model and the regenerated site inventory; schedules of the real program are explored, not proved. Trusted: the site scanner, rustc\'s Send/Sync checking, std RwLock modelled in its strictest form, decNumber/chrono/regex internals and the memory model (sampled only).',
+    technique='Coq proof about a readers-writer locking model with write acquisitions and shared mutable cells, stated for EVERY site inventory that meets a decidable predicate and instantiated for the '
+              'inventory and the lock program regenerated from the source on every run; lock operations observed in the running code; multi-threaded stress correspondence',
+    text='Theorems (coq/Props/C20.v, 34 obligations, all closed). Machine (coq/C20/Inv.v): std RwLock in its strictest, writer-preferring form (a waiting writer blocks new readers), thread programs over read AND '
+         'write acquisitions / releases, an immutable deployed model, private states, and shared mutable cells that a step names (nothing is immutable by type: a step over a cell reads what other threads wrote). '
+         'Inventory layer: all_from_inv inv ths = every lock instruction of every thread is an evaluation-phase acquisition listed in inv (or the release of its guard) and every step touches only cells that '
+         'stand for sites of inv the scanner cannot vouch for (static with interior mutability, static mut, thread_local, unsafe Send/Sync, shared decimal context, Mutex/Atomic field, missing file). '
+         'The unbounded theorems QUANTIFY OVER THE INVENTORY: forall inv, sites_ok inv = true -> forall store, cells, threads with all_from_inv inv, schedule: C20_inv_no_deadlock, C20_inv_no_block, '
+         'C20_inv_all_finish (fair schedules), C20_inv_result_is_solo_result (= the result of a system whose only thread is that call), C20_inv_no_lock_left_held (bracketed programs), '
+         'C20_inv_shared_state_untouched, C20_inv_non_interference (other threads, their programs and private states, the cell contents and both schedules arbitrary). The current inventory is an instance by '
+         'C20_sites_ok (vm_compute on coq/Gen/SyncSites.v). Every hypothesis is NECESSARY, by a witness inventory that violates only it: C20_no_eval_write_necessary (for every receiver l: a write acquisition '
+         'nested in a read section of l - one call is stuck after two turns and forever), C20_waiting_writer_blocks_nested_reader (writer preference: a re-entered read section and one writer are stuck after '
+         '[0;1;0]), C20_no_shared_mutable_necessary with C20_rejected_site_kinds (for every rejected site kind that is not a lock: two lock-free calls taking a number from the shared cell: call 0 returns 1 under '
+         '[1;0] and 0 alone), C20_bracketing_necessary (a kept guard leaves the lock held). The code as instance: translators/syncsites2coq.py now also extracts the lock OPERATIONS of the three regions of a '
+         'nested decision evaluation (evaluate_invocable, evaluate_decision, the decision closure) - acquisitions and releases, the release placed where the brace structure drops the guard; code_prog n fs '
+         '(coq/C20/Code.v) = those regions nested n levels deep with an arbitrary decision logic per level; C20_regions_ok (vm_compute), C20_code_prog_from_inventory (every n), C20_code_no_deadlock, '
+         'C20_code_result_is_solo_result, C20_code_no_lock_left_held, C20_code_fair_schedule_completes: any number of concurrent calls of any depths, any schedule. Theorems that FAIL for an empty or wrong inventory: '
+         'C20_inventory_nonempty (the regenerated call path of a decision requiring a decision has >= 12 acquisitions on >= 6 receivers, all evaluation-phase read sites of the inventory, = what two levels of the '
+         'regions acquire), C20_empty_inventory_rejected and C20_inventory_without_eval_reads_rejected (the program of a call is not a program of the empty inventory, nor of the inventory without its read sites). '
+         'The read-only theorems of the first version (C20_no_block .. C20_stuck_forever, C20_call_path_ok, C20_find_stuck_finds) are kept. Tied to the code: (i) the lock operations of one evaluation of a '
+         'decision requiring a decision are OBSERVED in the running harness (gdb breakpoints on every RwLock<T>::read / write instance and every RwLockReadGuard / WriteGuard drop of the unoptimised build, no hook) '
+         'and must equal, operation by operation (24: 12 acquisitions, 12 releases, order and receivers), the program the inventory describes; every receiver of the call path must really be acquired; (ii) '
+         'stress: 2..16 threads on one evaluator, randomised barriers / yields / call orders, every result against the sequential one, deadlock watchdog, poisoned-lock pass, storm of 2500 distinct regex / '
+         'date arguments, every call also made alone in a process of its own.',
+    note='Partial: the proof is about the locking / isolation machine and the regenerated inventory; schedules of the real program are explored, not proved. Trusted: the site scanner (classification of '
+         'acquisitions into build / evaluation phase, brace matching for guard lifetimes; cross-checked against the observed lock operations of one nested evaluation), that a step can depend on shared mutable '
+         'state only through the sites the scanner lists, rustc\'s Send/Sync checking, std RwLock modelled in its strictest form, decNumber/chrono/regex internals and the memory model (sampled only), gdb + symbol '
+         'names of the debug build for the observation.',
     category='proof')
